@@ -146,6 +146,8 @@ type Spec struct {
 	MinNontrivial map[string]int
 	// MinObserved: floors on counters / set sizes (same consequence).
 	MinObserved map[string]int64
+	// MinObservedTier: additional / overriding floors per tier ("quick", "thorough").
+	MinObservedTier map[string]map[string]int64
 	// Finalize may add cross-case coverage entries to the evidence.
 	Finalize func(a *Aggregate)
 }
